@@ -322,6 +322,11 @@ func init() {
 			impl, pred := runKillCase(c)
 			o.emit(c.line(), impl, pred)
 		}
-		o.note("C04: %d kill cells (+%d managed/CleanupClients)", len(cases), len(managed))
+		// … and over eight managed clients in eight different states with ONE call
+		{
+			cl, impl, pred := runCleanupMixed()
+			o.emit(cl, impl, pred)
+		}
+		o.note("C04: %d kill cells (+%d managed/CleanupClients, +1 mixed)", len(cases), len(managed))
 	})
 }
